@@ -4,28 +4,7 @@ import json, os
 HERE = os.path.dirname(os.path.dirname(os.path.abspath(__file__)))
 props = [json.loads(l) for l in open(os.path.join(HERE, 'properties.jsonl'))]
 
-CHECKS = {
- "C03": dict(level="exploration",
-   text="bounded-exhaustive enumeration of reader x value x trailing-residue, CanIRead x type lists x truncations, callback kinds x values, and explicit-state search over registration histories, all on the real parser/teamserver against the demonwire reference encoder",
-   note="trusts the demonwire transcription of the Demon's Package.c; values outside the listed domains are not covered",
-   technique="bounded-exhaustive enumeration against a reference model; explicit-state BFS over registration histories"),
- "C04": dict(level="model_checking",
-   text="explicit-state BFS over enqueue/check-in histories against a FIFO-batch reference model; stateless exploration of every interleaving within a preemption bound of concurrent producers/consumer on the real (instrumented) queue code under a controlled scheduler, checked for linearizability with porcupine",
-   note="3 threads, preemption bound 2 (quick) / 3 (thorough); statement-part granularity; instrumentation is injected by go build -overlay and preserves sequential semantics by construction",
-   technique="explicit-state BFS + controlled-scheduler stateless model checking (preemption-bounded DFS) of the implementation, linearizability oracle"),
- "C09": dict(level="model_checking",
-   text="explicit-state BFS (to a fixpoint in the thorough tier) over real pivot events on 4 agents; every transition is executed on a fresh real teamserver with a real SQLite file (callbacks relayed through the real parent chain); forest invariants I1-I6 incl. the raw TS_Links rows are evaluated in every state",
-   note="universe of 4 agents, sequential event delivery; the Demon side of the SMB relay is the demonwire transcription",
-   technique="explicit-state BFS over event histories with canonical-state de-duplication, executed on the implementation"),
- "C06": dict(level="model_checking",
-   text="product enumeration of the first-message shape grammar x follow-up menu through the real per-connection handler on a real gorilla server connection (operator and service endpoints), plus stateless exploration of every schedule within a preemption bound of handshake vs broadcasting listener vs peer close on instrumented code",
-   note="gorilla websocket is the real library on a scripted in-memory connection; 3 threads, preemption bound 2/3; first-message grammar as listed in the evidence",
-   technique="bounded-exhaustive product enumeration + controlled-scheduler stateless model checking of the implementation"),
- "C11": dict(level="model_checking",
-   text="explicit-state BFS over record/broadcast/remove/connect/disconnect histories with real handler goroutines parked on scripted websocket connections, every operator's frames compared with an event-log reference model after every step; every write index x fault kind on one operator's transport; every schedule within a preemption bound of concurrent broadcasters and a joining operator (controlled scheduler on instrumented code)",
-   note="a stalled transport = arbitrarily delayed write that finally fails; 2 operators; preemption bound 2/3 (1/2 with a joining operator); gorilla websocket is the real library over a scripted connection",
-   technique="explicit-state BFS + fault enumeration + controlled-scheduler stateless model checking of the implementation"),
-}
+CHECKS = json.load(open(os.path.join(HERE, 'tools', 'checks.json')))
 NA_REASON = "check under construction in this session (see DESIGN.md §4); not yet claimed"
 
 m = {
